@@ -42,6 +42,7 @@ structure St where
   thr : List Th := []
   flushes : Nat := 0            -- flush goroutines spawned and not yet run
   reqs : Nat := 0               -- tree requests sent and not yet answered
+  inst : Bool := false          -- some instance of this tree is listed (created by a hand-over)
   deriving Repr
 
 inductive Act where
@@ -50,13 +51,14 @@ inductive Act where
   | respond
   | localSet
   | flush
+  | expire
   deriving Repr
 
 def stepTh (s : St) (i : Nat) (t : Th) : St :=
   match t.pc with
   | .lookup =>
       if s.tree = .present then
-        { s with delivered := s.delivered ++ [t.m], thr := s.thr.set i { t with pc := .done } }
+        { s with delivered := s.delivered ++ [t.m], inst := true, thr := s.thr.set i { t with pc := .done } }
       else { s with thr := s.thr.set i { t with pc := .park } }
   | .park => { s with parked := s.parked ++ [t.m], thr := s.thr.set i { t with pc := .recheck } }
   | .recheck =>
@@ -88,6 +90,13 @@ def step (s : St) : Act → Option St
       if s.flushes = 0 then none
       else some { s with flushes := s.flushes - 1, parked := [],
                          thr := s.thr ++ s.parked.map (fun m => ⟨m, .lookup⟩) }
+  -- the tree is removed after its grace period (C11: only when no instance uses it; here: only when
+  -- its instances have finished and
+  -- nothing of this tree is parked, in flight or waiting to be flushed)
+  | .expire =>
+      if s.tree = .present ∧ s.inst = true ∧ s.parked = [] ∧ s.flushes = 0 ∧ (∀ t ∈ s.thr, t.pc = .done) then
+        some { s with tree := .absent, inst := false }
+      else none
 
 /-- a schedule: disabled actions are skipped -/
 def run (s : St) : List Act → St
@@ -179,6 +188,13 @@ def step (s : State) (toks : List String) : State × String :=
     match t.toNat? with
     | some t =>
       match C01.step (get s t) .localSet with
+      | some x => (set s t x, obs x)
+      | none => (s, "disabled")
+    | none => (s, "bad-op")
+  | ["expire", t] =>
+    match t.toNat? with
+    | some t =>
+      match C01.step (get s t) .expire with
       | some x => (set s t x, obs x)
       | none => (s, "disabled")
     | none => (s, "bad-op")
